@@ -184,6 +184,19 @@ impl<const N: usize> Events<N> {
     }
 }
 
+/// Verification hooks (feature `verif`): thin public wrappers over crate-private methods.
+#[cfg(feature = "verif")]
+impl<const N: usize> Events<N> {
+    pub fn verif_load_persist(&self, kv: &mut dyn KvBlobStore, buf: &mut [u8]) -> Result<(), Error> {
+        self.load_persist(kv, buf)
+    }
+
+    /// The event number the next `push` will assign.
+    pub fn verif_next_event_number(&self) -> EventNumber {
+        self.inner.lock(|state| state.borrow().next_event_number)
+    }
+}
+
 impl<const N: usize> Default for Events<N> {
     fn default() -> Self {
         Self::new()
